@@ -37,6 +37,15 @@ func reloadVariants(profile string) []variant {
 	}
 }
 
+func preemptVariants() []variant {
+	return []variant{
+		{Name: "preempt-nofault", Profile: "preempt", Policy: "rtc", Steps: 110, Weight: 4},
+		{Name: "preempt-confirm", Profile: "preempt", Policy: "rtc", Steps: 110, Faults: confirmFaults, FaultRate: 0.03, Weight: 3},
+		{Name: "preempt-reload", Profile: "preempt", Policy: "rtc", Steps: 110, Faults: with(confirmFaults, "reload_valid"), FaultRate: 0.03, Weight: 3},
+		{Name: "preempt-churn", Profile: "preempt", Policy: "rtc", Steps: 110, Faults: with(confirmFaults, "node_loss", "app_remove_live", "clock_jump", "predicate_flap"), FaultRate: 0.03, Weight: 2},
+	}
+}
+
 var plans = map[string]plan{
 	"C01": {Variants: append(stdVariants("base"), stdVariants("gang")[1]), QuickRuns: 400, QuickSecs: 70, ThoroughRuns: 40000, ThoroughSecs: 1500},
 	"C02": {Variants: append(stdVariants("quota"), stdVariants("base")[0], stdVariants("gang")[1]), QuickRuns: 400, QuickSecs: 70, ThoroughRuns: 40000, ThoroughSecs: 1500},
@@ -63,6 +72,8 @@ var plans = map[string]plan{
 		{Name: "malformed-limits", Profile: "limits", Policy: "rtc", Steps: 90, Faults: []string{"malformed", "req_dup"}, FaultRate: 0.03, Weight: 2},
 		{Name: "malformed-interleaved", Profile: "base", Policy: "rnd", PreemptP: 0.05, Steps: 70, Faults: []string{"malformed", "xchan_reorder", "node_loss"}, FaultRate: 0.03, Weight: 2},
 	}, QuickRuns: 400, QuickSecs: 70, ThoroughRuns: 40000, ThoroughSecs: 1500, Level: "fault_enumeration"},
+	"C07": {Variants: preemptVariants(), QuickRuns: 400, QuickSecs: 70, ThoroughRuns: 40000, ThoroughSecs: 1500},
+	"C08": {Variants: preemptVariants(), QuickRuns: 400, QuickSecs: 70, ThoroughRuns: 40000, ThoroughSecs: 1500},
 	"C09": {Variants: append(stdVariants("base"), stdVariants("gang")[1], stdVariants("gang")[2], stdVariants("gang")[4]), QuickRuns: 400, QuickSecs: 70, ThoroughRuns: 40000, ThoroughSecs: 1500},
 	"C10": {Variants: append(stdVariants("base"), stdVariants("gang")...), QuickRuns: 400, QuickSecs: 70, ThoroughRuns: 40000, ThoroughSecs: 1500},
 	"C11": {Variants: append(stdVariants("maxapps"), reloadVariants("maxapps")[0], reloadVariants("maxapps")[1]), QuickRuns: 400, QuickSecs: 70, ThoroughRuns: 40000, ThoroughSecs: 1500},
